@@ -55,7 +55,10 @@ fn send_new_compilation_request(
 
     #[cfg(feature = "verif")]
     sway_core::verif_hooks::point("send.load_is_compiling");
-    if state.is_compiling.load(Ordering::SeqCst) {
+    // Only a request that carries a new document version (didChange) supersedes the running
+    // compilation. A request without one (didOpen, didSave) is treated as up to date by the module
+    // cache, so if it cancelled the compilation of the latest edit that edit would never be compiled.
+    if state.is_compiling.load(Ordering::SeqCst) && version.is_some() {
         // If we are already compiling, then we need to retrigger compilation
         #[cfg(feature = "verif")]
         sway_core::verif_hooks::point("send.store_retrigger_true");
@@ -67,6 +70,11 @@ fn send_new_compilation_request(
     #[cfg(feature = "verif")]
     sway_core::verif_hooks::point("send.is_full");
     if state.cb_tx.is_full() {
+        if version.is_none() {
+            // For the same reason a request without a version must not replace a pending request:
+            // the pending compilation reads the current text of every file anyway.
+            return;
+        }
         while let Ok(TaskMessage::CompilationContext(_)) = state.cb_rx.try_recv() {
             // Loop will continue to remove `CompilationContext` messages
             // until the channel has no more of them.
